@@ -53,7 +53,10 @@ func (d *Driver) read() {
 		b = append(b, rb...)
 
 		if d.Channel.PromptPattern.Match(b) { //nolint: nestif
-			if bytes.Contains(b, []byte("</rpc>")) {
+			// more than one echoed rpc can be waiting (the echo of a request that timed out may arrive
+			// together with the echo of the next one), drop all of them so that what follows is filed on
+			// its own
+			for bytes.Contains(b, []byte("</rpc>")) && d.Channel.PromptPattern.Match(b) {
 				// we read past the input, yay this is good, but we don't care that much, we just
 				// need to reset the buffer... *but* because there is a small read delay in channel
 				// we can sometimes already have read past the prompt/end of the original rpc. This
@@ -68,6 +71,10 @@ func (d *Driver) read() {
 					ss = patterns.v1Dot0Delim.Split(string(b), endRPCSplitLen)
 				case V1Dot1:
 					ss = patterns.v1Dot1Delim.Split(string(b), endRPCSplitLen)
+				}
+
+				if len(ss) != endRPCSplitLen {
+					break
 				}
 
 				b = []byte(ss[1])
